@@ -132,6 +132,18 @@ def line_split(t):
         src = payload_of(t[1])
         if src is not None and is_call(src, "split_once"):
             return int(t[3]), src
+    # `let mut it = s.splitn(2, ':'); match (it.next(), it.next())`: the k-th item of the iterator
+    src = payload_of(t)
+    if src is not None and is_call(src, "next") and src[2]:
+        it = look(src[2][0])
+        k = 0
+        while it[0] == "mut":
+            if last_seg(it[2]) != "next":
+                return None
+            it = look(it[1])
+            k += 1
+        if is_call(it, "splitn") and k in (0, 1):
+            return k, it
     return None
 
 
@@ -179,6 +191,8 @@ def classify_arm(facts, lf):
                 return "<no-colon>"
         if option_test(t, c, lambda y: is_call(y, "split_once")) == "none":
             return "<no-colon>"
+        if t[0] == "discr" and is_call(look(t[1]), "next") and option_is_some(c) is False and line_split(("payload", look(t[1]))) is not None:
+            return "<no-colon>"     # `match (it.next(), it.next())` over splitn(2, ':'): a piece is missing
         if result_test(t, c, lambda y: is_call(y, "common::headers::Header::try_from")) == "err":
             arm = "<custom>"
         if t[0] == "discr" and payload_of(t[1]) is not None and is_call(payload_of(t[1]), "common::headers::Header::try_from"):
@@ -220,6 +234,12 @@ def line(ctx):
                     sp = look(coll[2][0])
                     if is_call(sp, "splitn"):
                         split_ok = utf8_of_arg(sp[2][0]) and const_of(sp[2][1]) == 2 and const_of(sp[2][2]) == 58 and const_of(t[3]) == 2
+            if t[0] == "discr" and is_call(look(t[1]), "next"):
+                ls_ = line_split(("payload", look(t[1])))
+                if ls_ is not None and ls_[0] == 1:
+                    # the second item of splitn(2, ':') exists exactly when there is a colon
+                    sp = ls_[1]
+                    split_ok = sp[1].startswith("core::str") and utf8_of_arg(sp[2][0]) and const_of(sp[2][1]) == 2 and const_of(sp[2][2]) == 58
             y, _o = tested_call(t, c)
             if y is not None and is_call(y, "split_once"):
                 # split_once(':') = (before the first colon, everything after it), None without a colon
@@ -292,8 +312,30 @@ def line(ctx):
         r = lf.ret()
         ctx.ob("R15.2", "custom|hashmap-insert", ok and r[0] == "agg" and r[2] == "Ok", "insert_custom_header is HashMap::insert(key, value) (last occurrence wins) and returns Ok", fi.loc(0))
     # R15.4
+    # setters of Headers that are in the frozen list (so not traversed inline) and store their argument unchanged: calling one is the write
+    id_setters = {}
+    for nm_, f_ in facts.fns.items():
+        if nm_.startswith(H + "::") and f_.nargs == 2 and f_.d["kind"] != "closure":
+            try:
+                fl_ = [l_ for l_ in PathEnum(f_, facts).run()]
+            except AnalysisError:
+                continue
+            tg = set()
+            for l_ in fl_:
+                aa = [e for e in l_.events if e[0] == "assign" and e[3].startswith("(*_1).")]
+                if l_.kind == "return" and len(aa) == 1 and look(aa[0][4]) == ("arg", 2) and len([e for e in l_.events if e[0] == "call"]) == 0:
+                    tg.add(aa[0][3][len("(*_1)."):])
+                else:
+                    tg.add(None)
+            if len(tg) == 1 and None not in tg:
+                id_setters[nm_] = tg.pop()
+
     def assigns(lf, field):
-        return [e for e in lf.events if e[0] == "assign" and e[3] == "(*_1).%s" % field]
+        out = [e for e in lf.events if e[0] == "assign" and e[3] == "(*_1).%s" % field]
+        for e in lf.events:
+            if e[0] == "call" and id_setters.get(e[3]) == field and look(e[4][2][0]) == ("arg", 1):
+                out.append(("assign", e[1], None, "(*_1).%s" % field, e[4][2][1], None))
+        return out
 
     for arm, field in (("ContentLength", "content_length"), ("Accept", "accept")):
         for lf in arms.get(arm, []):
